@@ -445,6 +445,8 @@ class SimLock(object):
 
     def release(self):
         if not self.held:
+            if _active is not None and _active.abort_reason:
+                return      # a torn-down run is unwinding its with-blocks
             raise RuntimeError("release unlocked lock")
         s = _active
         t = s.me() if s is not None else None
@@ -492,6 +494,8 @@ class SimRLock(SimLock):
         s = _active
         t = s.me() if s is not None else None
         if not self.held or self.owner is not t:
+            if s is not None and s.abort_reason:
+                return      # a torn-down run is unwinding its with-blocks
             raise RuntimeError("cannot release un-acquired lock")
         self.depth -= 1
         if self.depth == 0:
@@ -518,11 +522,16 @@ class SimSemaphore(object):
             return True
         s.events.append((t.tid, "acq:" + self.name))
         s.yield_point("lock")
+        deadline = s.now + timeout if timeout is not None and timeout >= 0 \
+            else None
         while self.value <= 0:
             if not blocking:
                 return False
+            if deadline is not None and s.now >= deadline:
+                return False
             self.waiters.append(t)
-            s.block(t, self)
+            if s.block(t, self, deadline) and t in self.waiters:
+                self.waiters.remove(t)
         self.value -= 1
         s.events.append((t.tid, "got:" + self.name))
         return True
@@ -570,20 +579,52 @@ class SimCondition(object):
         depth = getattr(self.lock, "depth", 1)
         if isinstance(self.lock, SimRLock):
             self.lock.depth = 1
-        self.lock.release()
+        # (as in threading.Condition.wait: the waiter is registered *before*
+        # the lock is given up, so a notify that runs in between is not lost)
         token = [False]
         self.waiting.append((t, token))
-        while not token[0]:
-            s.block(t, self)
-        self.lock.acquire()
+        deadline = s.now + timeout if timeout is not None and timeout >= 0 \
+            else None
+        timed_out = False
+        try:
+            self.lock.release()
+            while not token[0]:
+                if deadline is not None and s.now >= deadline:
+                    timed_out = True
+                    break
+                if s.block(t, self, deadline) and not token[0]:
+                    timed_out = True
+                    break
+            if timed_out:
+                self.waiting = [w for w in self.waiting if w[1] is not token]
+            self.lock.acquire()
+        except SimAbort:
+            # the run is being torn down: like threading.Condition.wait, give
+            # the caller its lock back so that the enclosing with-block can
+            # unwind (otherwise its __exit__ raises and masks the abort)
+            self.waiting = [w for w in self.waiting if w[1] is not token]
+            self.lock.held = True
+            self.lock.owner = t
+            if isinstance(self.lock, SimRLock):
+                self.lock.depth = depth
+            raise
         if isinstance(self.lock, SimRLock):
             self.lock.depth = depth
-        return True
+        return not timed_out
 
     def wait_for(self, predicate, timeout=None):
+        s = _active
+        end = s.now + timeout if s is not None and timeout is not None \
+            else None
         r = predicate()
         while not r:
-            self.wait()
+            if end is not None:
+                left = end - s.now
+                if left <= 0:
+                    break
+                self.wait(left)
+            else:
+                self.wait()
             r = predicate()
         return r
 
@@ -625,9 +666,9 @@ class SimEvent(object):
 
     def wait(self, timeout=None):
         with self.cond:
-            while not self.flag:
-                self.cond.wait()
-            return True
+            if not self.flag:
+                self.cond.wait_for(lambda: self.flag, timeout)
+            return self.flag
 
 
 # ---- locks the library itself may create -----------------------------------
